@@ -216,6 +216,10 @@ def adversarial_pdus(rng, quick):
     add(flags, ln=3)            # length byte shorter than an AdvA
     add(flags, ln=0)
     add(flags, hdr=0x40)
+    # length bytes with the reserved upper bits set, CRC valid over the length the low six bits spell: inconsistent, not queued
+    for hi in (0x40, 0x80, 0xC0):
+        for ad in (flags, flags + [4, 0x16, 0x0F, 0x18, 77], flags + [6, 0x08] + list(b"nRF24"), [], flags + [2, 0x0A, 0xEE] + [3, 0x09, 65, 66]):
+            add(ad, ln=(6 + len(ad)) | hi)
     for _ in range(30 if quick else 400):
         n = rng.randrange(0, 22)
         add([rng.randrange(256) for _ in range(n)])
